@@ -58,6 +58,7 @@ class Gen:
     def __init__(self, rng: random.Random):
         self.rng = rng
         self.classes: List[dict] = list(G.STD_CLASSES)
+        self.subs: Dict[int, int] = {}          # dataclass id -> id of a subclass with the same fields
 
     def scalar(self):
         return ("AScalar", (self.rng.choice(G.KINDS),))
@@ -170,6 +171,10 @@ class Gen:
             afields.append(P(S(n), P(a, req)))
         cid = len(self.classes)
         self.classes.append({"kind": kind, "fields": fields, "total": total, "hashable": False})
+        if kind == "data" and rng.random() < 0.4:
+            # a subclass: its instances are NOT values of the annotated class under the exact-type reading
+            self.subs[cid] = len(self.classes)
+            self.classes.append({"kind": "data", "base_cls": cid, "own": 0, "fields": fields, "hashable": False})
         rk = {"data": "RkData", "data_slots": "RkData", "named": "RkNamed", "typed": "RkTyped"}[kind]
         return ("ARecord", (rk,), N(cid), afields)
 
@@ -303,6 +308,10 @@ class Built:
         self.pending: List[Tuple[Any, Any]] = []
         B.ANN_RESOLVER[0] = lambda ref, ct: ref.owner.to_py(ref.term, ct)
         try:
+            # typing caches parametrised aliases by *set-equal* arguments: List[Literal[None, b"a"]] would come back
+            # as an earlier List[Literal[b"a", None]] (same for unions) - start every case from empty caches
+            for clear in getattr(typing, "_cleanups", []):
+                clear()
             self.ctx = Ctx(descs, [], rng)
             self.ct = self.ctx.ct
             self.T = self.to_py(a, self.ct)
@@ -689,7 +698,9 @@ def corrupt_value(x, rng: random.Random, g: Gen):
             else:
                 kvs.append(P(S("zz"), rng.choice(LOOK)))
             return ("VDict", kvs)
-        if t[0] == "VObj" and r < 0.5:
+        if t[0] == "VObj" and t[1].k in g.subs and r < 0.5:
+            return ("VObj", N(g.subs[t[1].k]), t[2])                         # an instance of a subclass
+        if t[0] == "VObj" and r < 0.75:
             return ("VDict", t[2])                                           # a dict shaped like the record
         return rng.choice(LOOK)
 
